@@ -441,68 +441,88 @@ func runSched(r *vk.Run) {
 		cfgs = append(cfgs, cfg{"unrestricted", 0})
 		r.Note("sched: taskset or a CPU list is not available; only the worker count of this machine (%d CPUs) is explored", runtime.NumCPU())
 	}
-	var wg sync.WaitGroup
 	var mu sync.Mutex
 	var per []interface{}
 	workersSeen := map[int]bool{}
 	outcomes := map[string]int{}
 	total, points, scen, nviol := 0, 0, 0, 0
+	// runOne returns false when the child produced no result
+	runOne := func(c cfg) (ok bool, diag string) {
+		args := fmt.Sprintf("--tier %s --budget %ds --c05-sched-child %s", r.Tier, int(r.Remaining().Seconds())-5, c.label)
+		script := fmt.Sprintf("ulimit -v %d; exec \"$0\" %s", 8*1024*1024, args)
+		if c.ncpu > 0 {
+			var l []string
+			for _, id := range cpus[:c.ncpu] {
+				l = append(l, strconv.Itoa(id))
+			}
+			script = fmt.Sprintf("ulimit -v %d; exec taskset -c %s \"$0\" %s", 8*1024*1024, strings.Join(l, ","), args)
+		}
+		cmd := exec.Command("bash", "-c", script, self)
+		cmd.Env = append(os.Environ(), "GOTRACEBACK=single")
+		errbuf := &strings.Builder{}
+		cmd.Stderr = errbuf
+		out, err := cmd.Output()
+		var res schedChildResult
+		found := false
+		for _, line := range strings.Split(string(out), "\n") {
+			if strings.HasPrefix(line, "C05SCHED ") {
+				if e := json.Unmarshal([]byte(line[len("C05SCHED "):]), &res); e != nil {
+					vk.Fatalf("sched child %s: bad result: %v", c.label, e)
+				}
+				found = true
+			}
+		}
+		if !found {
+			es := errbuf.String()
+			if len(es) > 1500 {
+				es = es[:1500]
+			}
+			return false, fmt.Sprintf("%v\n%s", err, es)
+		}
+		mu.Lock()
+		defer mu.Unlock()
+		for i, v := range res.Viol {
+			r.Violation(v.Key, v.What, res.Replays[i])
+			nviol++
+		}
+		workersSeen[res.Workers] = true
+		total += res.Executions
+		points += res.Points
+		scen += res.Scenarios
+		for k, n := range res.Outcomes {
+			outcomes[k] += n
+		}
+		if res.Capped {
+			r.Capped(fmt.Sprintf("sched %s (%d workers): %d scenarios fully explored before the deadline", c.label, res.Workers, res.Scenarios))
+		}
+		per = append(per, map[string]interface{}{"config": c.label, "num_cpu": res.NumCPU, "workers": res.Workers, "scenarios": res.Scenarios, "schedules": res.Executions,
+			"scheduling_points": res.Points, "by_preemptions": res.ByCost})
+		return true, ""
+	}
+	var wg sync.WaitGroup
+	succeeded := 0
 	for _, c := range cfgs {
 		wg.Add(1)
 		go func(c cfg) {
 			defer wg.Done()
-			args := fmt.Sprintf("--tier %s --budget %ds --c05-sched-child %s", r.Tier, int(r.Remaining().Seconds())-5, c.label)
-			script := fmt.Sprintf("ulimit -v %d; exec \"$0\" %s", 8*1024*1024, args)
-			if c.ncpu > 0 {
-				var l []string
-				for _, id := range cpus[:c.ncpu] {
-					l = append(l, strconv.Itoa(id))
-				}
-				script = fmt.Sprintf("ulimit -v %d; exec taskset -c %s \"$0\" %s", 8*1024*1024, strings.Join(l, ","), args)
-			}
-			cmd := exec.Command("bash", "-c", script, self)
-			cmd.Env = append(os.Environ(), "GOTRACEBACK=single")
-			errbuf := &strings.Builder{}
-			cmd.Stderr = errbuf
-			out, err := cmd.Output()
-			var res schedChildResult
-			found := false
-			for _, line := range strings.Split(string(out), "\n") {
-				if strings.HasPrefix(line, "C05SCHED ") {
-					if e := json.Unmarshal([]byte(line[len("C05SCHED "):]), &res); e != nil {
-						vk.Fatalf("sched child %s: bad result: %v", c.label, e)
-					}
-					found = true
-				}
-			}
-			if !found {
-				es := errbuf.String()
-				if len(es) > 1500 {
-					es = es[:1500]
-				}
-				vk.Fatalf("sched child %s died without a result: %v\n%s", c.label, err, es)
-			}
+			ok, diag := runOne(c)
 			mu.Lock()
 			defer mu.Unlock()
-			for i, v := range res.Viol {
-				r.Violation(v.Key, v.What, res.Replays[i])
-				nviol++
+			if ok {
+				succeeded++
+			} else if c.ncpu > 0 && strings.Contains(diag, "taskset:") {
+				r.Note("sched: the child under %s produced no result (taskset not permitted here?): %s", c.label, strings.SplitN(diag, "\n", 2)[0])
+			} else {
+				vk.Fatalf("sched child %s died without a result: %s", c.label, diag)
 			}
-			workersSeen[res.Workers] = true
-			total += res.Executions
-			points += res.Points
-			scen += res.Scenarios
-			for k, n := range res.Outcomes {
-				outcomes[k] += n
-			}
-			if res.Capped {
-				r.Capped(fmt.Sprintf("sched %s (%d workers): %d scenarios fully explored before the deadline", c.label, res.Workers, res.Scenarios))
-			}
-			per = append(per, map[string]interface{}{"config": c.label, "num_cpu": res.NumCPU, "workers": res.Workers, "scenarios": res.Scenarios, "schedules": res.Executions,
-				"scheduling_points": res.Points, "by_preemptions": res.ByCost})
 		}(c)
 	}
 	wg.Wait()
+	if succeeded == 0 {
+		if ok, diag := runOne(cfg{"unrestricted", 0}); !ok {
+			vk.Fatalf("sched child (unrestricted) died without a result: %s", diag)
+		}
+	}
 	var ws []int
 	for w := range workersSeen {
 		ws = append(ws, w)
